@@ -34,7 +34,8 @@ def consistency_strategy():
         'kind': st.just('copula'), 'family': st.sampled_from(c10.FAMS), 'tau': st.floats(0.02, 0.95),
         'n': st.integers(20, 1500), 'seed': S.SEEDS, 'round': st.sampled_from([None, None, 2, 1]),
     })
-    return st.fixed_dictionaries({'data': st.one_of(c10.data_strategy(), c10.data_strategy(valid_only=True), big, pos, pos, pos), 'rng': S.SEEDS})
+    return st.fixed_dictionaries({'data': st.one_of(c10.data_strategy(), c10.data_strategy(valid_only=True), big, pos, pos, pos), 'rng': S.SEEDS,
+                                  'layout': st.sampled_from(['C', 'F', 'F-view'])})
 
 
 def describe(cop):
@@ -47,7 +48,15 @@ def oracle_consistency(case):
 
     X = c10.build(case['data'])
     kind, exp = c10.expected(X)
-    k1, out = call(select_copula, X.copy(), allow=(ValueError,), what='select_copula')
+    layout = case.get('layout', 'C')
+    if layout == 'F':
+        Xarg = np.asfortranarray(X.copy())
+    elif layout == 'F-view':
+        Xarg = np.vstack((X[:, 0], X[:, 1])).T          # a column-major view, as produced by stacking two vectors
+    else:
+        Xarg = X.copy()
+    k1, out = call(select_copula, Xarg, allow=(ValueError,), what='select_copula')
+    require(np.array_equal(Xarg, X), 'select_copula modified its %s-ordered input array' % layout, tag='input-mutated')
     if kind == 'refuse':
         require(k1 == 'exc', 'select_copula accepted invalid data (%s) and returned %r' % (exp, out), tag='accepted-invalid')
         return {'nontrivial': False, 'classes': ['rejected-input']}
@@ -71,7 +80,7 @@ def oracle_consistency(case):
     np.random.seed(case['rng'] % (2 ** 32))
     np.random.uniform(size=3)
     bivariate.Frank().fit(np.random.RandomState(1).uniform(size=(30, 2)))   # unrelated call in between
-    d1 = describe(value(select_copula, X.copy(), what='select_copula'))
+    d1 = describe(value(select_copula, Xarg, what='select_copula (same array object again)'))
     np.random.set_state(st0)
     require(d1 == d0, 'select_copula is not deterministic: %r then %r on the same data' % (d0, d1), tag='determinism')
     import warnings
